@@ -85,7 +85,7 @@ def try_replay(prop, res, target):
     return None
 
 
-def finish(prop, tier, seed, R, outs, t0, update_baseline=False, extra_items=None):
+def finish(prop, tier, seed, R, outs, t0, update_baseline=False, extra_items=None, skipped=0):
     findings = load_findings()
     known = {f["id"]: f for f in findings.get("findings", []) if f.get("property") == prop}
     base_path = os.path.join(BASELINE_DIR, "%s.json" % prop)
@@ -146,7 +146,7 @@ def finish(prop, tier, seed, R, outs, t0, update_baseline=False, extra_items=Non
     proved_keys -= failed_keys
 
     # expected obligations that disappeared entirely (contract target vanished) are undecided, reported
-    missing = sorted(k for k in base_proved if k not in proved_keys and k not in failed_keys)
+    missing = sorted(k for k in base_proved if k not in proved_keys and k not in failed_keys) if not skipped else []
     wall = round(time.time() - t0, 3)
     rc = 0
     lines = []
@@ -214,6 +214,7 @@ def finish(prop, tier, seed, R, outs, t0, update_baseline=False, extra_items=Non
             faults=faults,
             violations=[dict(obligation=v["obligation"], status=v["status"]) for v in viol_records],
             baseline_missing=missing[:20],
+            not_run_after_early_stop=skipped,
             targets=targets_seen,
             evaluations=max(n_obl, 1), distinct_nontrivial=len(proved_keys | failed_keys),
             rule="one evaluation = one verification condition generated from the AST of /repo and sent to a solver; distinct = distinct stable obligation names",
